@@ -6,52 +6,55 @@
    so one record describes nesting (open/close around a core), right-recursive chains (open only) and
    left-deep suffix chains (close only).  TLC enumerates the matrix and prints every case with the expected
    outcome, which is the same for every case: the parser RETURNS a tree and an error list (no abort, no
-   panic, no time-out), the tree's text has the length of the input, and -- because the parser bounds its
-   recursion -- the tree's depth is bounded by a constant independent of `depth` (TreeDepthBound) while
-   inputs nested deeper than the limit carry at least one syntax error.  Whether the machine stack of a
+   panic, no time-out), the tree's text has the length of the input, well-formed input of
+   moderate depth (<= CleanUpTo) carries no error, and -- because the parser bounds its recursion like the
+   reference Lua does -- input nested deeper than the limit carries at least one syntax error.  Whether the machine stack of a
    2 MiB thread suffices is outside what TLA+ can model: that is what the replay (one subprocess per case)
    observes.  The ladder also gives the CPU-time growth exponent between successive depths. *)
 EXTENDS Naturals, Sequences, FiniteSets, TLC, Json
 
-CONSTANTS Depths, Levels, TreeDepthBound, MustErrorAbove
+CONSTANTS Depths, Levels,
+          CleanUpTo,       \* well-formed input nested at most this deep must parse without any error
+          MustErrorAbove   \* nested / right-recursive input deeper than this exceeds the parser's recursion limit
+                           \* (200 levels, 100 for doc types) and must carry at least one error
 
 Constructs ==
-  { [name |-> "paren",        doc |-> FALSE, prefix |-> "local x = ", open |-> "(", core |-> "1", close |-> ")", suffix |-> "\n"],
-    [name |-> "table",        doc |-> FALSE, prefix |-> "local x = ", open |-> "{", core |-> "1", close |-> "}", suffix |-> "\n"],
-    [name |-> "table-field",  doc |-> FALSE, prefix |-> "local x = ", open |-> "{a=", core |-> "1", close |-> "}", suffix |-> "\n"],
-    [name |-> "closure",      doc |-> FALSE, prefix |-> "local x = ", open |-> "function() return ", core |-> "1", close |-> " end", suffix |-> "\n"],
-    [name |-> "func-stat",    doc |-> FALSE, prefix |-> "", open |-> "function f() ", core |-> "", close |-> " end", suffix |-> "\n"],
-    [name |-> "do-block",     doc |-> FALSE, prefix |-> "", open |-> "do ", core |-> "", close |-> " end", suffix |-> "\n"],
-    [name |-> "if-nest",      doc |-> FALSE, prefix |-> "", open |-> "if a then ", core |-> "", close |-> " end", suffix |-> "\n"],
-    [name |-> "while-nest",   doc |-> FALSE, prefix |-> "", open |-> "while a do ", core |-> "", close |-> " end", suffix |-> "\n"],
-    [name |-> "elseif-chain", doc |-> FALSE, prefix |-> "if a then ", open |-> "elseif a then ", core |-> "", close |-> "", suffix |-> "end\n"],
-    [name |-> "unary-minus",  doc |-> FALSE, prefix |-> "local x = ", open |-> "- ", core |-> "1", close |-> "", suffix |-> "\n"],
-    [name |-> "unary-not",    doc |-> FALSE, prefix |-> "local x = ", open |-> "not ", core |-> "a", close |-> "", suffix |-> "\n"],
-    [name |-> "concat-right", doc |-> FALSE, prefix |-> "local x = ", open |-> "a .. ", core |-> "a", close |-> "", suffix |-> "\n"],
-    [name |-> "pow-right",    doc |-> FALSE, prefix |-> "local x = ", open |-> "2 ^ ", core |-> "2", close |-> "", suffix |-> "\n"],
-    [name |-> "add-left",     doc |-> FALSE, prefix |-> "local x = ", open |-> "", core |-> "1", close |-> " + 1", suffix |-> "\n"],
-    [name |-> "index-chain",  doc |-> FALSE, prefix |-> "local x = a", open |-> "", core |-> "", close |-> ".b", suffix |-> "\n"],
-    [name |-> "call-chain",   doc |-> FALSE, prefix |-> "f", open |-> "", core |-> "", close |-> "()", suffix |-> "\n"],
-    [name |-> "call-arg",     doc |-> FALSE, prefix |-> "", open |-> "f(", core |-> "1", close |-> ")", suffix |-> "\n"],
-    [name |-> "open-paren",   doc |-> FALSE, prefix |-> "local x = ", open |-> "(", core |-> "", close |-> "", suffix |-> "\n"],
-    [name |-> "open-brace",   doc |-> FALSE, prefix |-> "local x = ", open |-> "{", core |-> "", close |-> "", suffix |-> "\n"],
-    [name |-> "open-func",    doc |-> FALSE, prefix |-> "", open |-> "function f() ", core |-> "", close |-> "", suffix |-> "\n"],
-    [name |-> "close-only",   doc |-> FALSE, prefix |-> "", open |-> "", core |-> "", close |-> "end ) } ", suffix |-> "\n"],
-    [name |-> "doc-generic",  doc |-> TRUE,  prefix |-> "---@type ", open |-> "A<", core |-> "B", close |-> ">", suffix |-> "\nlocal x\n"],
-    [name |-> "doc-paren",    doc |-> TRUE,  prefix |-> "---@type ", open |-> "(", core |-> "B", close |-> ")", suffix |-> "\nlocal x\n"],
-    [name |-> "doc-union",    doc |-> TRUE,  prefix |-> "---@type ", open |-> "A|", core |-> "B", close |-> "", suffix |-> "\nlocal x\n"],
-    [name |-> "doc-array",    doc |-> TRUE,  prefix |-> "---@type A", open |-> "", core |-> "", close |-> "[]", suffix |-> "\nlocal x\n"],
-    [name |-> "doc-fun",      doc |-> TRUE,  prefix |-> "---@type ", open |-> "fun(a:", core |-> "B", close |-> ")", suffix |-> "\nlocal x\n"],
-    [name |-> "doc-table",    doc |-> TRUE,  prefix |-> "---@type ", open |-> "{a:", core |-> "B", close |-> "}", suffix |-> "\nlocal x\n"],
-    [name |-> "doc-tuple",    doc |-> TRUE,  prefix |-> "---@type ", open |-> "[", core |-> "B", close |-> "]", suffix |-> "\nlocal x\n"],
-    [name |-> "doc-open",     doc |-> TRUE,  prefix |-> "---@type ", open |-> "A<", core |-> "", close |-> "", suffix |-> "\nlocal x\n"],
-    [name |-> "doc-nullable", doc |-> TRUE,  prefix |-> "---@type A", open |-> "", core |-> "", close |-> "?", suffix |-> "\nlocal x\n"] }
+  { [name |-> "paren", shape |-> "nested",        doc |-> FALSE, prefix |-> "local x = ", open |-> "(", core |-> "1", close |-> ")", suffix |-> "\n"],
+    [name |-> "table", shape |-> "nested",        doc |-> FALSE, prefix |-> "local x = ", open |-> "{", core |-> "1", close |-> "}", suffix |-> "\n"],
+    [name |-> "table-field", shape |-> "nested",  doc |-> FALSE, prefix |-> "local x = ", open |-> "{a=", core |-> "1", close |-> "}", suffix |-> "\n"],
+    [name |-> "closure", shape |-> "nested",      doc |-> FALSE, prefix |-> "local x = ", open |-> "function() return ", core |-> "1", close |-> " end", suffix |-> "\n"],
+    [name |-> "func-stat", shape |-> "nested",    doc |-> FALSE, prefix |-> "", open |-> "function f() ", core |-> "", close |-> " end", suffix |-> "\n"],
+    [name |-> "do-block", shape |-> "nested",     doc |-> FALSE, prefix |-> "", open |-> "do ", core |-> "", close |-> " end", suffix |-> "\n"],
+    [name |-> "if-nest", shape |-> "nested",      doc |-> FALSE, prefix |-> "", open |-> "if a then ", core |-> "", close |-> " end", suffix |-> "\n"],
+    [name |-> "while-nest", shape |-> "nested",   doc |-> FALSE, prefix |-> "", open |-> "while a do ", core |-> "", close |-> " end", suffix |-> "\n"],
+    [name |-> "elseif-chain", shape |-> "flat", doc |-> FALSE, prefix |-> "if a then ", open |-> "elseif a then ", core |-> "", close |-> "", suffix |-> "end\n"],
+    [name |-> "unary-minus", shape |-> "right",  doc |-> FALSE, prefix |-> "local x = ", open |-> "- ", core |-> "1", close |-> "", suffix |-> "\n"],
+    [name |-> "unary-not", shape |-> "right",    doc |-> FALSE, prefix |-> "local x = ", open |-> "not ", core |-> "a", close |-> "", suffix |-> "\n"],
+    [name |-> "concat-right", shape |-> "right", doc |-> FALSE, prefix |-> "local x = ", open |-> "a .. ", core |-> "a", close |-> "", suffix |-> "\n"],
+    [name |-> "pow-right", shape |-> "right",    doc |-> FALSE, prefix |-> "local x = ", open |-> "2 ^ ", core |-> "2", close |-> "", suffix |-> "\n"],
+    [name |-> "add-left", shape |-> "left",     doc |-> FALSE, prefix |-> "local x = ", open |-> "", core |-> "1", close |-> " + 1", suffix |-> "\n"],
+    [name |-> "index-chain", shape |-> "left",  doc |-> FALSE, prefix |-> "local x = a", open |-> "", core |-> "", close |-> ".b", suffix |-> "\n"],
+    [name |-> "call-chain", shape |-> "left",   doc |-> FALSE, prefix |-> "f", open |-> "", core |-> "", close |-> "()", suffix |-> "\n"],
+    [name |-> "call-arg", shape |-> "nested",     doc |-> FALSE, prefix |-> "", open |-> "f(", core |-> "1", close |-> ")", suffix |-> "\n"],
+    [name |-> "open-paren", shape |-> "broken",   doc |-> FALSE, prefix |-> "local x = ", open |-> "(", core |-> "", close |-> "", suffix |-> "\n"],
+    [name |-> "open-brace", shape |-> "broken",   doc |-> FALSE, prefix |-> "local x = ", open |-> "{", core |-> "", close |-> "", suffix |-> "\n"],
+    [name |-> "open-func", shape |-> "broken",    doc |-> FALSE, prefix |-> "", open |-> "function f() ", core |-> "", close |-> "", suffix |-> "\n"],
+    [name |-> "close-only", shape |-> "broken",   doc |-> FALSE, prefix |-> "", open |-> "", core |-> "", close |-> "end ) } ", suffix |-> "\n"],
+    [name |-> "doc-generic", shape |-> "nested",  doc |-> TRUE,  prefix |-> "---@type ", open |-> "A<", core |-> "B", close |-> ">", suffix |-> "\nlocal x\n"],
+    [name |-> "doc-paren", shape |-> "nested",    doc |-> TRUE,  prefix |-> "---@type ", open |-> "(", core |-> "B", close |-> ")", suffix |-> "\nlocal x\n"],
+    [name |-> "doc-union", shape |-> "left",    doc |-> TRUE,  prefix |-> "---@type ", open |-> "A|", core |-> "B", close |-> "", suffix |-> "\nlocal x\n"],
+    [name |-> "doc-array", shape |-> "left",    doc |-> TRUE,  prefix |-> "---@type A", open |-> "", core |-> "", close |-> "[]", suffix |-> "\nlocal x\n"],
+    [name |-> "doc-fun", shape |-> "nested",      doc |-> TRUE,  prefix |-> "---@type ", open |-> "fun(a:", core |-> "B", close |-> ")", suffix |-> "\nlocal x\n"],
+    [name |-> "doc-table", shape |-> "nested",    doc |-> TRUE,  prefix |-> "---@type ", open |-> "{a:", core |-> "B", close |-> "}", suffix |-> "\nlocal x\n"],
+    [name |-> "doc-tuple", shape |-> "nested",    doc |-> TRUE,  prefix |-> "---@type ", open |-> "[", core |-> "B", close |-> "]", suffix |-> "\nlocal x\n"],
+    [name |-> "doc-open", shape |-> "broken",     doc |-> TRUE,  prefix |-> "---@type ", open |-> "A<", core |-> "", close |-> "", suffix |-> "\nlocal x\n"],
+    [name |-> "doc-nullable", shape |-> "left", doc |-> TRUE,  prefix |-> "---@type A", open |-> "", core |-> "", close |-> "?", suffix |-> "\nlocal x\n"] }
 
-\* constructs whose nesting depth in the grammar grows with `depth` (the others are chains the grammar may
-\* parse by iteration; for those only "returns a tree" and the tree-depth bound are expected)
-Nested == {"paren", "table", "table-field", "closure", "func-stat", "do-block", "if-nest", "while-nest", "call-arg",
-           "doc-generic", "doc-paren", "doc-fun", "doc-table", "doc-tuple"}
-
+\* shape: "nested"  open/close around a core: the grammar recurses once (or twice) per level
+\*        "right"   right-recursive operator chain: the grammar recurses once per link
+\*        "left"    left-associative / suffix chain: parsed by iteration, but the TREE is `depth` deep
+\*        "flat"    a long sequence without nesting
+\*        "broken"  unbalanced input (only "returns a tree" is expected)
 VARIABLE case
 Init == case \in {[c |-> c, depth |-> d, level |-> lv] : c \in Constructs, d \in Depths, lv \in Levels}
 Next == UNCHANGED case
@@ -62,10 +65,10 @@ TextLen(k) == Len(k.c.prefix) + k.depth * (Len(k.c.open) + Len(k.c.close)) + Len
 
 Expected(k) == [outcome |-> "tree",
                 len |-> TextLen(k),
-                tree_depth_max |-> TreeDepthBound,
-                must_error |-> (k.c.name \in Nested /\ k.depth > MustErrorAbove)]
+                clean |-> (k.c.shape # "broken" /\ k.depth <= CleanUpTo),
+                must_error |-> (k.c.shape \in {"nested", "right"} /\ k.depth > MustErrorAbove)]
 
-Emit == PrintT(<<"CASE", ToJson([construct |-> case.c.name, doc |-> case.c.doc, level |-> case.level, depth |-> case.depth,
+Emit == PrintT(<<"CASE", ToJson([construct |-> case.c.name, shape |-> case.c.shape, doc |-> case.c.doc, level |-> case.level, depth |-> case.depth,
                                  prefix |-> case.c.prefix, open |-> case.c.open, core |-> case.c.core,
                                  close |-> case.c.close, suffix |-> case.c.suffix, expect |-> Expected(case)])>>)
 =============================================================================
